@@ -267,6 +267,37 @@ PROPS["C06"] = {
     "explanation": "uniqueness-based lemmas (linear / offset / reversal) not built; see DESIGN.md",
 }
 
+PROPS["C11"] = {
+    "modules": [], "contracts": [],
+    "standin": True,
+    "level": "exploration",
+    "trusted": ["CPython datetime / calendar as the reference calendar", "pandas/xarray for the accessor"],
+    "not_proved": ["the class model (isinstance dispatch, datetime, f-strings) is outside the verifier's current subset: no deductive obligation yet; the z3 lemmas over integer division / calendar ordinals listed in DESIGN.md Appendix A.4 were validated at design time but are not wired to the real AST"],
+    "assumptions": [],
+    "level_text": "bounded only (labelled as such): the laws of the statement (membership, abutment, ndays, 36 per year, mutual inverses date/label/raw, order and hashing, integer translations, accessor == scalar class) evaluated on the real class; quick tier: every dekad of about 1,200 years and every day of about 130 years incl. all boundary years; thorough tier: every dekad and every day from 0001-01-01 to 9999-12-31, which is exactly the finite domain the property quantifies over",
+    "level_note": "not a proof in the quick tier; the thorough tier is an exhaustive enumeration of the property's finite domain",
+    "technique": "bounded stand-in for contract-based verification: the class contract evaluated at run time over the calendar (exhaustively in the thorough tier)",
+    "explanation": "exhaustive/bounded evaluation of the Dekad laws on the real class",
+}
+
+PROPS["C12"] = {
+    "modules": ["contracts.c14", "contracts.ops_spi"],
+    "contracts": ["hdc/algo/ops/ws2doptvplc.py::ws2doptvplc_tyx@idx", "hdc/algo/ops/autocorr.py::autocorr@idx", "hdc/algo/ops/autocorr.py::autocorr@idxf",
+                  "hdc/algo/ops/autocorr.py::autocorr_tyx@idx", "hdc/algo/ops/autocorr.py::autocorr_tyx@idxf", "hdc/algo/ops/stats.py::gammastd_yxt",
+                  "hdc/algo/ops/stats.py::mann_kendall_trend_yxt@idx"],
+    "standin": True,
+    "level": "other",
+    "trusted": ["dask / xarray scheduling semantics, Numba's compiler lock and threading layer: outside any contract on this code base",
+                "callees of the prange body (_ws2doptvp, autocorr_1d) are pure: they have no modifies clause and their frame obligations are discharged in their own contracts"],
+    "not_proved": ["independence from the dask scheduler / chunking / laziness, dims order, and all interleavings of threads racing on the first call of a lazily compiled kernel: bounded stand-in only (the technique is silent on schedules)",
+                   "per-pixel functional independence of the 3-d drivers beyond 'stores hit only the iteration's own slots'"],
+    "assumptions": [],
+    "level_text": "partially decidable: deductively, for the multi-threaded kernel ws2doptvplc_tyx every store inside the prange body goes either to an array allocated inside the iteration or to a slot indexed by the prange variable (ownership obligations, all discharged), which is data-race freedom for every thread count and schedule; the 3-d drivers' subscripts are in bounds. The dask / scheduler / chunking / dims-order / first-use-race clauses are covered by a bounded stand-in (every accessor operation x chunkings x schedulers x dims orders; prange kernel with 1/4/16 threads; 8 threads racing in a fresh interpreter)",
+    "level_note": "ownership (race freedom) and index obligations proved; schedule / dask clauses bounded only",
+    "technique": "contract-based deductive verification (ownership obligations for prange stores, frame conditions) + bounded run-time comparison of lazy/eager/threaded executions",
+    "explanation": "own obligations in the prange kernel; everything about schedulers is bounded",
+}
+
 ALL = ["C%02d" % i for i in range(1, 21)]
 NOT_APPLICABLE = {
     "C13": "statement about Numba's type inference/lowering and the ctypes binding of SciPy kernels (the translator), not about functions of /repo: no contract on hdc-algo source can establish or refute it; it is the stated assumption of every proof here",
